@@ -31,6 +31,20 @@ class Disc:
     def __init__(self, F):
         self.F = F
 
+    def by_signature(self, params, ret, where=None):
+        """local functions found by their signature (private helper names are not anchors): `params` is the list of
+        parameter type spellings, `ret` a substring of the return type spelling, `where` a substring of the def path"""
+        out = []
+        for d, b in self.F.bodies.items():
+            if b.get("ret") is None or b.get("kind") not in ("Fn", "AssocFn"):
+                continue
+            if where and where not in d:
+                continue
+            ps = [self.F.types[p["t"]]["s"] for p in b["params"]]
+            if ps == list(params) and ret in self.F.types[b["ret"]]["s"]:
+                out.append(d)
+        return out
+
     def adt_of_impl(self, im):
         t = self.F.types[im["self"]]
         return t["def"] if t["k"] == "adt" else None
